@@ -1,7 +1,8 @@
-(* C13/Proofs.v — forward compatibility: three machine-checked refutations, and what remains true
-   (everything the library itself can build is framed, accepted and delivered in order). *)
+(* C13/Proofs.v — forward compatibility: unknown header fields and flag bits are tolerated (proved for every message and
+   every stream the reference reader accepts); messages of unknown type are still not skipped (refuted, with the
+   partial statement that remains). *)
 From ZV Require Import Base.Bytes Base.Res Base.Sig C10.Model C11.Model C11.Spec C11.Lemmas C11.AtPos C11.Invariants C11.Proofs
-     C13.Model C13.Spec.
+     C13.Model C13.Spec C13.Refine C13.Tolerant C13.Stream.
 From Coq Require Import Lia ZifyBool ZifyN ZifyNat.
 Open Scope N_scope.
 
@@ -27,20 +28,70 @@ Definition odd_flag : bytes := unhex "6c01080100000000020000002d00000001016f0004
 (* message type 5 *)
 Definition odd_type : bytes := unhex "6c05000100000000020000002d00000001016f00040000002f612f620000000002017300070000006f72672e612e4200030173000400000050696e6700000000".
 
-Theorem unknown_field_refuted :
-  exists b sm e, spec_parse b = Some sm /\ sm_unknown_fields sm = 1 /\ sm_type sm = 1 /\ sm_raw_flags sm = 0
-                 /\ from_raw_parts LE b = Err e
-                 /\ read_stream (n1 ++ b ++ n3) = [IMsg 1; IErrMsg; IEnd]
-                 /\ spec_stream 400 (n1 ++ b ++ n3) = Some [IMsg 1; IMsg 2; IMsg 3; IErrIo; IEnd].
-Proof. exists odd_field. eexists. eexists. repeat (match goal with |- _ /\ _ => split end); vm_compute; reflexivity. Qed.
+(* ---------- unknown header fields and unknown flag bits are tolerated (since fix 9e1c6e56 / 0d33c3d1) ---------- *)
+(* the message part of the full statement holds: whatever the reference reader accepts with a known type is accepted,
+   with the same header (unknown fields dropped, unknown flag bits masked) and the same body *)
+Theorem message_tolerant : C13_message_statement.
+Proof.
+  intros b sm Hs Hty. destruct (message_ok b sm Hs Hty) as (m & Hp & Hh & Hb & _). eauto.
+Qed.
 
-Theorem unknown_flag_refuted :
-  exists b sm e, spec_parse b = Some sm /\ sm_raw_flags sm = 8 /\ sm_unknown_fields sm = 0 /\ sm_type sm = 1
-                 /\ from_raw_parts LE b = Err e
-                 /\ read_stream (n1 ++ b ++ n3) = [IMsg 1; IErrMsg; IEnd]
-                 /\ spec_stream 400 (n1 ++ b ++ n3) = Some [IMsg 1; IMsg 2; IMsg 3; IErrIo; IEnd].
-Proof. exists odd_flag. eexists. eexists. repeat (match goal with |- _ /\ _ => split end); vm_compute; reflexivity. Qed.
+Lemma stream_loop : forall fuel stream l, spec_stream fuel stream = Some l -> stream_types_known fuel stream = true ->
+  reader_loop fuel stream = l.
+Proof.
+  induction fuel as [|f IH]; intros stream l Hs Hk; [discriminate|].
+  cbn [spec_stream] in Hs. destruct stream as [|c t] eqn:Est.
+  { injection Hs as <-. reflexivity. }
+  rewrite <- Est in *.
+  destruct (spec_frame_len stream) as [n|] eqn:Efl; [|discriminate].
+  destruct (n <=? len stream) eqn:En; [|discriminate].
+  destruct (spec_parse (takeN n stream)) as [sm|] eqn:Esp; [|discriminate].
+  destruct (spec_stream f (dropN n stream)) as [rest|] eqn:Er; [|discriminate].
+  destruct (spec_parse_reads _ _ Esp) as (e & c0 & fl & ver & bl & flen & Hr & _ & Hlen & _).
+  assert (Hn16 : 16 <= n).
+  { destruct Hr. rewrite len_take in hr_len16 by lia. exact hr_len16. }
+  cbn [stream_types_known] in Hk. rewrite Efl in Hk. replace ((n <=? len stream) && (0 <? n)) with true in Hk by lia.
+  rewrite Esp in Hk. apply andb_prop in Hk. destruct Hk as [Hty Hk].
+  rewrite Hty in Hs. injection Hs as <-.
+  assert (Hty' : 1 <= sm_type sm <= 4) by lia.
+  cbn [reader_loop]. rewrite (frame_spec stream n sm Efl ltac:(lia) Esp Hty').
+  destruct (message_ok _ _ Esp Hty') as (m & Hp & Hh & _ & _ & Hsn).
+  rewrite Hp, Hh, Hsn. f_equal. apply IH; assumption.
+Qed.
 
+(* the stream part holds for every stream whose messages all have a known type, whatever fields and flags they carry *)
+Theorem stream_tolerant stream l : spec_stream (S (length stream)) stream = Some l ->
+  stream_types_known (S (length stream)) stream = true -> read_stream stream = l.
+Proof. intros Hs Hk. unfold read_stream. apply stream_loop; assumption. Qed.
+
+Theorem unknown_field_ok b sm : spec_parse b = Some sm -> 0 < sm_unknown_fields sm -> 1 <= sm_type sm <= 4 ->
+  exists m, from_raw_parts (ph_endian (hv_ph (sm_view sm))) b = Ok m /\ header m = Ok (sm_view sm) /\ body m = Ok (sm_body sm).
+Proof. intros Hs _ Hty. exact (message_tolerant b sm Hs Hty). Qed.
+
+Theorem unknown_flag_ok b sm : spec_parse b = Some sm -> 8 <= sm_raw_flags sm -> 1 <= sm_type sm <= 4 ->
+  exists m, from_raw_parts (ph_endian (hv_ph (sm_view sm))) b = Ok m /\ header m = Ok (sm_view sm) /\ body m = Ok (sm_body sm)
+            /\ ph_flags (hv_ph (sm_view sm)) = sm_raw_flags sm mod 8.
+Proof.
+  intros Hs _ Hty. destruct (message_tolerant b sm Hs Hty) as (m & Hp & Hh & Hb). exists m. repeat split; auto.
+  unfold spec_parse in Hs.
+  repeat match type of Hs with
+         | match ?x with _ => _ end = _ => destruct x; try discriminate
+         | (if ?x then _ else _) = _ => destruct x; try discriminate
+         end.
+  injection Hs as <-. reflexivity.
+Qed.
+
+(* the former witnesses (known_findings/C13.jsonl, status fixed): both are delivered and the stream goes on *)
+Example former_witnesses_tolerated :
+  (exists sm, spec_parse odd_field = Some sm /\ sm_unknown_fields sm = 1) /\
+  (exists sm, spec_parse odd_flag = Some sm /\ sm_raw_flags sm = 8) /\
+  read_stream (n1 ++ odd_field ++ n3) = [IMsg 1; IMsg 2; IMsg 3; IErrIo; IEnd] /\
+  read_stream (n1 ++ odd_flag ++ n3) = [IMsg 1; IMsg 2; IMsg 3; IErrIo; IEnd].
+Proof.
+  repeat (match goal with |- _ /\ _ => split end); try (eexists; split); vm_compute; reflexivity.
+Qed.
+
+(* ---------- unknown message types: still not skipped ---------- *)
 Theorem unknown_type_refuted :
   exists b sm, spec_parse b = Some sm /\ sm_type sm = 5 /\ sm_raw_flags sm = 0 /\ sm_unknown_fields sm = 0
                /\ read_stream (n1 ++ b ++ n3) = [IMsg 1; IErrMsg; IEnd]
@@ -49,13 +100,12 @@ Proof. exists odd_type. eexists. repeat (match goal with |- _ /\ _ => split end)
 
 Theorem full_refuted : ~ C13_full_statement.
 Proof.
-  intros [Hm _].
-  assert (Hs : exists sm, spec_parse odd_field = Some sm /\ sm_type sm = 1 /\ ph_endian (hv_ph (sm_view sm)) = LE)
-    by (eexists; repeat (match goal with |- _ /\ _ => split end); vm_compute; reflexivity).
-  destruct Hs as (sm & Hs & Ht & He).
-  destruct (Hm odd_field sm Hs ltac:(lia)) as (m & Hp & _). rewrite He in Hp.
-  assert (Herr : exists e, from_raw_parts LE odd_field = Err e) by (eexists; vm_compute; reflexivity).
-  destruct Herr as (e & Herr). congruence.
+  intros [_ Hst].
+  assert (Hs : spec_stream (S (length (n1 ++ odd_type ++ n3))) (n1 ++ odd_type ++ n3) = Some [IMsg 1; IMsg 3; IErrIo; IEnd])
+    by (vm_compute; reflexivity).
+  apply Hst in Hs.
+  assert (Hr : read_stream (n1 ++ odd_type ++ n3) = [IMsg 1; IErrMsg; IEnd]) by (vm_compute; reflexivity).
+  rewrite Hr in Hs. discriminate.
 Qed.
 
 (* ---------- what remains: messages the library builds (codes 1..9, flags <= 7, types 1..4) ---------- *)
